@@ -32,7 +32,10 @@ var histHosts = []string{"example.org", "sub.example.org", "ads.example.net", "t
 
 func rndListLine(rnd *rand.Rand) string {
 	h := histHosts[rnd.Intn(len(histHosts))]
-	switch rnd.Intn(30) {
+	switch rnd.Intn(31) {
+	case 30:
+		// everything but one site; never applies to a hostname that is an IP address
+		return "*$denyallow=" + h
 	case 25:
 		// no "||" and no scheme: matched against the hostname for DNS requests, against the URL for web requests
 		return h + "|"
@@ -192,6 +195,10 @@ func rndHistQuery(rnd *rand.Rand) *histQuery {
 		q.cn = []string{"", "phone", "tv"}[rnd.Intn(3)]
 		q.cip = []string{"", "10.0.0.5", "192.168.1.2"}[rnd.Intn(3)]
 		q.tags = [][]string{nil, {"t1"}, {"t1", "t2"}, {"t3"}}[rnd.Intn(4)]
+		if rnd.Intn(8) == 0 {
+			// a hostname that is an address: what the engine learns about it must not stick to the next request
+			q.host = []string{"1.2.3.4", "10.1.1.1", "::1"}[rnd.Intn(3)]
+		}
 	case 2:
 		q.kind = []string{"web", "net"}[rnd.Intn(2)]
 		q.url = []string{"http://", "https://"}[rnd.Intn(2)] + h + []string{"/", "/ads/banner.js", "/ads12/x.png", "/index.html", "/Ads/banner.js", "/ADS/BANNER.JS",
@@ -707,6 +714,16 @@ func cmdDriveFault(args []string) error {
 		if gated {
 			lines = append(lines, "||"+gatedHost+"^", "0.0.0.0 "+gatedHost)
 		}
+		// every 8th history: two rules share a $domain bucket and only the second one is materialised before the fault (a
+		// request from the page only that rule names); after the fault a request from the other page finds the
+		// unreadable rule first in the bucket - the materialised one behind it must still be served
+		bucket := hnum%8 == 0 && !bulk && !gated
+		if bucket {
+			lines = append(lines, "/ab$domain=bkt-b.test", "/cd$domain=bkt-a.test|bkt-b.test")
+		}
+		bucketQ := func(page string) *histQuery {
+			return &histQuery{kind: "net", host: "static.site.com", url: "https://static.site.com/ab/cd", src: "https://" + page + "/", typ: rules.TypeScript}
+		}
 		ls := hr.Int63()
 		// every 8th history: the fault is transient - retrievals fail for a while and then work again; nothing that
 		// happened in between may stick
@@ -746,6 +763,9 @@ func cmdDriveFault(args []string) error {
 		}
 		if gated {
 			kind = "close"
+		}
+		if bucket {
+			kind, faultAt = "close", 1+hr.Intn(hl-1)
 		}
 		recoverAt := -1
 		if transient {
@@ -863,7 +883,11 @@ func cmdDriveFault(args []string) error {
 				out.write(map[string]any{"ev": "recover", "q": "", "got": []string{}, "gotnet": []string{}, "twin": []string{}, "twinnet": []string{}, "ref": []string{}, "kind": "transient", "h": hnum})
 			}
 			var q *histQuery
-			if bulk {
+			if bucket && i == 0 {
+				q = bucketQ("bkt-a.test")
+			} else if bucket && i == faultAt {
+				q = bucketQ("bkt-b.test")
+			} else if bulk {
 				q = &histQuery{kind: "dnsmatch", host: fmt.Sprintf("bulk%04d.example", i%5000)}
 			} else if hr.Intn(4) == 0 {
 				q = rndHistQuery(hr)
